@@ -380,7 +380,10 @@ Section Graph.
     ti_cur : Forall (fun e => -1 <= snd e <= last_prod ts) (readers ts);
     ti_saved : saved ts = savedspec (W t) (ppos ts) (minc (readers ts));
     ti_dead : pdead ts = exhausted ts;
-    ti_exh : exhausted ts = true -> ppos ts = length (W t) }.
+    ti_exh : exhausted ts = true -> ppos ts = length (W t);
+    (* no failure was injected at any position the producer got past *)
+    ti_nofault : forall q, (q < ppos ts)%nat -> faulty fault t q = false;
+    ti_srcend : exhausted ts = true -> forall msgs, nth_error g t = Some (Src msgs) -> faulty fault t (ppos ts) = false }.
 
   Definition Inv (st : state) : Prop :=
     length st = length g /\ forall t, (t < length g)%nat -> tinv t (get st t).
@@ -419,7 +422,7 @@ Section Graph.
   Proof.
     intros Hi Hr Hn. destruct (tinv_cursor _ _ _ Hi Hr) as [Hc Hm].
     pose proof Hr as Hr'. rewrite <- (ti_keys _ _ Hi) in Hr'.
-    destruct Hi as [[H1 H2 H3 H4 H5] H6 H7 H8 H9 H10].
+    destruct Hi as [[H1 H2 H3 H4 H5] H6 H7 H8 H9 H10 H11 H12].
     constructor; [constructor|..]; cbn [ack_reader last_prod ppos has_spy spy_log spy_closed exhausted readers saved pdead]; auto.
     - rewrite keys_set; auto.
     - apply Forall_forall. intros e He. apply set_reader_entries in He as [->|He].
@@ -430,12 +433,12 @@ Section Graph.
 
   (* the producer emits its next message: set_prod; _ack_msg_produced *)
   Lemma tinv_produce t ts r : tinv t ts -> In r (rkeys t) -> exhausted ts = false ->
-    (ppos ts < length (W t))%nat ->
+    (ppos ts < length (W t))%nat -> faulty fault t (ppos ts) = false ->
     tinv t (ack_produced (set_prod ts (S (ppos ts)) false) (nth (ppos ts) (W t) 0)).
   Proof.
-    intros Hi Hr He Hp. destruct (tinv_cursor _ _ _ Hi Hr) as [Hc Hm].
+    intros Hi Hr He Hp Hnf. destruct (tinv_cursor _ _ _ Hi Hr) as [Hc Hm].
     pose proof Hr as Hr'. rewrite <- (ti_keys _ _ Hi) in Hr'.
-    destruct Hi as [[H1 H2 H3 H4 H5] H6 H7 H8 H9 H10].
+    destruct Hi as [[H1 H2 H3 H4 H5] H6 H7 H8 H9 H10 H11 H12].
     constructor; [constructor|..];
       cbn [ack_produced set_prod last_prod ppos has_spy spy_log spy_closed exhausted readers saved pdead]; auto.
     - lia.
@@ -444,13 +447,16 @@ Section Graph.
     - destruct (readers ts) as [|e rs] eqn:Ers; [destruct Hr'|]. rewrite <- Ers in *.
       rewrite H8, savedspec_S by lia. repeat f_equal. lia.
     - congruence.
+    - intros q Hq. destruct (Nat.eq_dec q (ppos ts)) as [->|Hne]; [exact Hnf | apply H11; lia].
+    - congruence.
   Qed.
 
   (* the producer ends: set_prod dead; _ack_topic_exhausted; the reader is done *)
   Lemma tinv_stop t ts r : tinv t ts -> exhausted ts = false -> ppos ts = length (W t) ->
+    (forall msgs, nth_error g t = Some (Src msgs) -> faulty fault t (ppos ts) = false) ->
     tinv t (mark_done (ack_exhausted (set_prod ts (ppos ts) true)) r).
   Proof.
-    intros Hi He Hp. destruct Hi as [[H1 H2 H3 H4 H5] H6 H7 H8 H9 H10].
+    intros Hi He Hp Hse. destruct Hi as [[H1 H2 H3 H4 H5] H6 H7 H8 H9 H10 H11 H12].
     constructor; [constructor|..];
       cbn [mark_done ack_exhausted set_prod last_prod ppos has_spy spy_log spy_closed exhausted readers saved pdead]; auto.
     rewrite H5, He. destruct (has_spy ts); reflexivity.
@@ -560,6 +566,17 @@ Section Graph.
     (forall t', (topic < t')%nat -> get st' t' = get st t') /\
     (forall t' s, (topic < s)%nat -> (t' <> topic \/ s <> reader) -> cursor st' t' s = cursor st t' s).
 
+  (* an exhausted stage was stopped by an exhausted dependency *)
+  Definition exh_closed (st : state) : Prop :=
+    forall T deps, nth_error g T = Some (Stage deps) -> exhausted (get st T) = true ->
+      exists d, In d deps /\ exhausted (get st d) = true.
+
+  Lemma alive_exh_closed st : alive st -> exh_closed st.
+  Proof.
+    intros Ha T deps E He. assert (HT : (T < length g)%nat) by (apply nth_error_Some; congruence).
+    rewrite (Ha T HT) in He. discriminate.
+  Qed.
+
   Definition pull_post (st : state) (topic reader : nat) (res : state * outcome) : Prop :=
     let c := cursor st topic reader in
     match res with
@@ -569,7 +586,8 @@ Section Graph.
         m = nth (Z.to_nat (c + 1)) (W topic) 0
     | (st', Stop) =>
         Inv st' /\ (forall t', (topic < t')%nat -> get st' t' = get st t') /\
-        cursor st' topic reader = c /\ Z.to_nat (c + 1) = length (W topic) /\ exhausted (get st' topic) = true
+        cursor st' topic reader = c /\ Z.to_nat (c + 1) = length (W topic) /\ exhausted (get st' topic) = true /\
+        exh_closed st'
     | (st', Raise) => RaisePost st'
     | (st', OutOfFuel) => False
     end.
@@ -590,7 +608,7 @@ Section Graph.
         inputs = acc ++ map (fun d => nth p (W d) 0) ds
     | (st', Stop, _) =>
         Inv st' /\ (forall t', (T <= t')%nat -> get st' t' = get st t') /\
-        exists d, In d ds /\ p = length (W d)
+        exh_closed st' /\ exists d, In d ds /\ p = length (W d) /\ exhausted (get st' d) = true
     | (st', Raise, _) => RaisePost st'
     | (_, OutOfFuel, _) => False
     end.
@@ -637,12 +655,12 @@ Section Graph.
              rewrite G3 by exact Hnotin. rewrite Hc1.
              rewrite (Hc d (or_introl eq_refl)). reflexivity.
           -- rewrite Hin, <- app_assoc. cbn [map app]. now rewrite Hm.
-        * destruct X as (HI' & G1 & d' & Hd' & Hlen). split; [exact HI'|]. split.
+        * destruct X as (HI' & G1 & Hcl & d' & Hd' & Hlen). split; [exact HI'|]. split; [|split; [exact Hcl|]].
           -- intros t' Ht'. rewrite G1 by lia. apply F1; lia.
           -- exists d'. split; [right; exact Hd' | exact Hlen].
-      + destruct Hpost as (HI1 & F1 & Hc1 & Hlen & _). split; [exact HI1|]. split.
+      + destruct Hpost as (HI1 & F1 & Hc1 & Hlen & Hex1 & Hcl). split; [exact HI1|]. split; [|split; [exact Hcl|]].
         * intros t' Ht'. apply F1; lia.
-        * exists d. split; [left; reflexivity | lia].
+        * exists d. split; [left; reflexivity | split; [lia | exact Hex1]].
       + exact Hpost.
       + exact Hpost.
   Qed.
@@ -690,9 +708,12 @@ Section Graph.
           (forall deps d, nth_error g T = Some (Stage deps) -> In d deps -> cursor st' d T = last_prod (get st T) + 1) /\
           (forall t', (T < t')%nat -> get st' t' = get st t') /\
           (forall t' s, (T < s)%nat -> cursor st' t' s = cursor st t' s) /\
-          (p < length (W T))%nat /\ m = nth p (W T) 0
+          (p < length (W T))%nat /\ m = nth p (W T) 0 /\ faulty fault T p = false
     | (st1, Stop) => exists st', st1 = upd st' T (fun ts => set_prod ts (ppos ts) true) /\
-          Inv st' /\ get st' T = get st T /\ (forall t', (T < t')%nat -> get st' t' = get st t') /\ p = length (W T)
+          Inv st' /\ get st' T = get st T /\ (forall t', (T < t')%nat -> get st' t' = get st t') /\ p = length (W T) /\
+          (forall msgs, nth_error g T = Some (Src msgs) -> faulty fault T p = false) /\
+          exh_closed st' /\
+          (forall deps, nth_error g T = Some (Stage deps) -> exists d, In d deps /\ exhausted (get st' d) = true)
     | (st1, Raise) => RaisePost st1
     | (_, OutOfFuel) => False
     end.
@@ -711,11 +732,12 @@ Section Graph.
       + destruct (nth_error msgs (ppos (get st T))) as [m|] eqn:En.
         * exists st. split; [reflexivity|]. split; [exact HI|]. split; [exact Ha|]. split; [reflexivity|].
           split; [intros s Hs'; apply Hs; lia|]. split; [intros deps d; congruence|].
-          split; [reflexivity|]. split; [reflexivity|]. rewrite HW. split.
+          split; [reflexivity|]. split; [reflexivity|]. rewrite HW. split; [|split; [|first [exact Ef | reflexivity]]].
           -- apply nth_error_Some. congruence.
           -- symmetry. now apply nth_error_nth.
         * exists st. split; [reflexivity|]. split; [exact HI|]. split; [reflexivity|]. split; [reflexivity|].
-          apply nth_error_None in En. rewrite HW in *. lia.
+          split; [apply nth_error_None in En; rewrite HW in *; lia|].
+          split; [intros _ _; first [exact Ef | reflexivity]|]. split; [now apply alive_exh_closed|]. intros deps; congruence.
     - (* a stage *)
       pose proof (gather_spec f T deps IH HT E deps st [] (incl_refl _) (Hnd _ _ E) HI Ha
                     (fun s Hs' => Hs s (Nat.lt_le_incl _ _ Hs')) (fun d Hd => Hs T (le_n _) deps d E Hd)) as HG.
@@ -731,11 +753,13 @@ Section Graph.
           { intros deps' d E' Hd. assert (deps' = deps) by congruence. subst deps'. apply G4, Hd. }
           split; [intros t' Ht'; apply G1; lia|]. split; [exact G2|].
           destruct (W_stage_nth T deps (ppos (get st T)) E (fun d Hd => proj2 (G4 d Hd))) as [H1 H2].
-          split; [exact H1|]. rewrite H2, Hin. reflexivity.
-      + destruct HG as (HI' & G1 & d & Hd & Hlen).
+          split; [exact H1|]. split; [|first [exact Ef | reflexivity]]. rewrite H2, Hin. reflexivity.
+      + destruct HG as (HI' & G1 & Hcl & d & Hd & Hlen & Hexd).
         exists st'. split; [reflexivity|]. split; [exact HI'|]. split; [apply G1; lia|].
         split; [intros t' Ht'; apply G1; lia|].
-        pose proof (W_stage_len T deps d E Hd). lia.
+        split; [pose proof (W_stage_len T deps d E Hd); lia|].
+        split; [intros msgs; congruence|]. split; [exact Hcl|].
+        intros deps' E'. assert (deps' = deps) by congruence. subst deps'. exists d. auto.
       + destruct HG as (Hl & Hall & Hfi). apply raise_dead; auto.
       + exact HG.
     - apply nth_error_None in E. lia.
@@ -776,7 +800,7 @@ Section Graph.
       rewrite (ti_dead _ _ Hti), Hex.
       pose proof (producer_next_spec f st T IH ltac:(lia) Ht HI Ha Hs) as Hpn. unfold pn_post in Hpn.
       destruct (producer_next _ st T) as [st1 [m| | |]].
-      + destruct Hpn as (st' & -> & HI' & Ha' & HgT & Hs' & HsT & G1 & G2 & Hp & Hmm).
+      + destruct Hpn as (st' & -> & HI' & Ha' & HgT & Hs' & HsT & G1 & G2 & Hp & Hmm & Hnf).
         assert (Hlen' : (T < length st')%nat) by (rewrite (proj1 HI'); exact Ht).
         destruct (get_upd3 st' T (fun ts => set_prod ts (S (ppos ts)) false) (fun ts => ack_produced ts m)
                     (fun ts => ack_reader ts reader (c + 1)) Hlen') as (EqT & EqO & EqL).
@@ -805,20 +829,27 @@ Section Graph.
         * unfold cursor at 1. rewrite EqT. cbn [ack_reader readers]. apply lookup_set_eq.
         * lia.
         * rewrite Hmm. f_equal. lia.
-      + destruct Hpn as (st' & -> & HI' & HgT & G1 & Hp).
+      + destruct Hpn as (st' & -> & HI' & HgT & G1 & Hp & Hse & Hclo & Hdx).
         assert (Hlen' : (T < length st')%nat) by (rewrite (proj1 HI'); exact Ht).
         destruct (get_upd3 st' T (fun ts => set_prod ts (ppos ts) true) ack_exhausted
                     (fun ts => mark_done ts reader) Hlen') as (EqT & EqO & EqL).
         cbn zeta in EqT, EqO, EqL. cbn beta in EqT. rewrite HgT in EqT.
         set (st'' := upd (upd (upd st' T _) T _) T _) in *.
-        split; [|split; [|split; [|split]]].
+        assert (HexT : exhausted (get st'' T) = true) by (rewrite EqT; reflexivity).
+        assert (Hmono : forall t, exhausted (get st' t) = true -> exhausted (get st'' t) = true).
+        { intros t He. destruct (Nat.eq_dec T t) as [<-|Hne]; [exact HexT | now rewrite EqO]. }
+        split; [|split; [|split; [|split; [|split]]]].
         * split; [rewrite EqL; apply HI'|]. intros t Ht'. destruct (Nat.eq_dec T t) as [<-|Hne].
           -- rewrite EqT. apply tinv_stop; auto.
           -- rewrite EqO by exact Hne. apply HI', Ht'.
         * intros t' Ht'. rewrite EqO by lia. apply G1, Ht'.
         * unfold cursor at 1. rewrite EqT. reflexivity.
         * lia.
-        * rewrite EqT. reflexivity.
+        * exact HexT.
+        * intros T' deps E He. destruct (Nat.eq_dec T T') as [<-|Hne].
+          -- destruct (Hdx deps E) as (d & Hd & Hed). exists d. split; [exact Hd | now apply Hmono].
+          -- rewrite EqO in He by exact Hne. destruct (Hclo T' deps E He) as (d & Hd & Hed).
+             exists d. split; [exact Hd | now apply Hmono].
       + exact Hpn.
       + exact Hpn.
   Qed.
@@ -908,7 +939,7 @@ Section Graph.
   Definition drain_post (res : state * res (list Z)) : Prop :=
     match res with
     | (st', Ok out) => out = W target /\ Inv st' /\ exhausted (get st' target) = true /\
-                       cursor st' target target = last_prod (get st' target)
+                       cursor st' target target = last_prod (get st' target) /\ exh_closed st'
     | (st', Err e) => e = 1 /\ err_post st'
     end.
 
@@ -931,8 +962,9 @@ Section Graph.
       + rewrite Hc'. replace (Z.to_nat (c + 1 + 1)) with (S (Z.to_nat (c + 1))) by lia.
         rewrite firstn_S_nth by exact Hidx. now rewrite Hacc, Hm.
       + rewrite Hc'. lia.
-    - destruct Hpost as (HI' & _ & Hc' & Hlen & Hex). unfold drain_post.
+    - destruct Hpost as (HI' & _ & Hc' & Hlen & Hex & Hcl). unfold drain_post.
       split; [rewrite Hacc, Hlen; apply firstn_all|]. split; [exact HI'|]. split; [exact Hex|].
+      split; [|exact Hcl].
       pose proof (proj2 HI' target Ht) as Hti.
       rewrite Hc', (wi_lp _ _ (ti_w _ _ Hti)), (ti_exh _ _ Hti Hex). lia.
     - unfold drain_post. split; [reflexivity|]. now apply err_post_kill.
@@ -958,5 +990,310 @@ Section Graph.
     cbn [minc min_read]. rewrite Hc, (wi_lp _ _ (ti_w _ _ Hti)). lia.
   Qed.
 
-(*__END__*)
 End Graph.
+
+(* ------------------------------------------------------------------------------------------ *)
+(** * The theorems about a whole run *)
+
+Section Final.
+  Variables (g : list node) (comb : nat -> list Z -> Z) (target : nat) (spies : list bool) (steps fuel : nat).
+  Hypothesis Hyp : po_hyps g comb target spies steps fuel.
+  Let spy0 := fun t => nth t spies false.
+
+  Lemma run_post fault :
+    drain_post g comb fault target spy0 (po_run g comb fault target spies steps fuel).
+  Proof.
+    destruct Hyp as (Hwf & Hnd & Ht & Hsp & Hfu & Hst).
+    destruct (init_ok g comb fault Hwf target spy0 spies Hsp (fun t => eq_refl)) as (HI & Ha & Hs).
+    assert (Hc0 : cursor (init g target spies) target target = -1).
+    { unfold cursor. rewrite (get_init g comb target spy0) by auto. apply lookup_all_m1, init_readers_m1. }
+    unfold po_run. apply drain_spec; auto.
+    - rewrite Hc0. reflexivity.
+    - rewrite Hc0. change (Z.to_nat (-1 + 1)) with 0%nat. lia.
+  Qed.
+
+  Lemma tinv_spy_ok fault st t : tinv g comb fault target spy0 t (get st t) -> spy_ok g comb spies st t.
+  Proof.
+    intros [[H1 H2 H3 H4 H5] H6 H7 H8 H9 H10 H11 H12]. unfold spy_ok. cbn zeta.
+    fold (spy0 t). rewrite <- H3. auto 10.
+  Qed.
+
+  (** 1. Without a failure the caller receives exactly the whole-run sequence, the target topic ends
+      exhausted, every spy has seen exactly what its topic produced (all of it if the topic is exhausted)
+      and was closed exactly once iff its topic is exhausted; with FINAL as only reader no mail is left. *)
+  Theorem po_no_fault_complete :
+    let res := po_run g comb None target spies steps fuel in
+    snd res = Ok (whole_of g comb target) /\
+    exhausted (get (fst res) target) = true /\
+    (forall t, (t < length g)%nat -> spy_ok g comb spies (fst res) t) /\
+    (no_consumers g target -> saved (get (fst res) target) = []).
+  Proof.
+    cbn zeta. pose proof (run_post None) as HP. destruct Hyp as (Hwf & Hnd & Ht & Hsp & Hfu & Hst).
+    destruct (po_run g comb None target spies steps fuel) as [stf [out|e]]; cbn [fst snd]; unfold drain_post in HP.
+    - destruct HP as (-> & HI & Hex & Hc & _). split; [reflexivity|]. split; [exact Hex|]. split.
+      + intros t Ht'. eapply tinv_spy_ok. apply HI, Ht'.
+      + intros Hn. eapply saved_target_empty; eauto.
+    - destruct HP as (_ & _ & (ft & fp & Ef & _) & _). discriminate.
+  Qed.
+
+  (* the readable consequence for savers of exhausted topics *)
+  Corollary po_no_fault_savers_complete :
+    let res := po_run g comb None target spies steps fuel in
+    forall t, (t < length g)%nat -> nth t spies false = true -> exhausted (get (fst res) t) = true ->
+      spy_log (get (fst res) t) = whole_of g comb t /\ spy_closed (get (fst res) t) = 1%nat.
+  Proof.
+    cbn zeta. intros t Ht Hs He. destruct po_no_fault_complete as (_ & _ & Hall & _).
+    destruct (Hall t Ht) as (_ & _ & _ & Hlog & Hex & Hcl). cbn zeta in *.
+    rewrite Hs in *. rewrite He in Hcl. split; [|exact Hcl].
+    rewrite Hlog, (Hex He). apply firstn_all.
+  Qed.
+
+  (** 2. Whatever fails: the caller gets the exception or the complete result, never anything else. *)
+  Theorem po_never_silently_truncated fault :
+    let res := po_run g comb fault target spies steps fuel in
+    snd res = Err 1 \/ snd res = Ok (whole_of g comb target).
+  Proof.
+    cbn zeta. pose proof (run_post fault) as HP.
+    destruct (po_run g comb fault target spies steps fuel) as [stf [out|e]]; cbn [fst snd]; unfold drain_post in HP.
+    - right. destruct HP as (-> & _). reflexivity.
+    - left. destruct HP as (-> & _). reflexivity.
+  Qed.
+
+  (** 3. The exception arrives exactly when the injected failure fired. *)
+  Theorem po_exception_iff_fired fault :
+    let res := po_run g comb fault target spies steps fuel in
+    snd res = Err 1 <-> fired fault (fst res).
+  Proof.
+    cbn zeta. pose proof (run_post fault) as HP. destruct Hyp as (Hwf & Hnd & Ht & Hsp & Hfu & Hst).
+    destruct (po_run g comb fault target spies steps fuel) as [stf [out|e]]; cbn [fst snd]; unfold drain_post in HP.
+    - split; [discriminate|]. intros (ft & fp & Ef & Hp & Hd & He). exfalso.
+      destruct HP as (_ & [Hl HI] & _).
+      destruct (le_lt_dec (length g) ft) as [Hge|Hlt].
+      + unfold get in Hd. rewrite nth_overflow in Hd by lia. discriminate.
+      + pose proof (ti_dead _ _ _ _ _ _ _ (HI ft Hlt)). congruence.
+    - destruct HP as (-> & _ & Hf & _). split; auto.
+  Qed.
+
+  Theorem po_exception_only_if_fault fault :
+    snd (po_run g comb fault target spies steps fuel) = Err 1 ->
+    exists ft fp, fault = Some (ft, fp) /\ (ft < length g)%nat /\ (fp <= length (whole_of g comb ft))%nat /\
+                  ppos (get (fst (po_run g comb fault target spies steps fuel)) ft) = fp.
+  Proof.
+    intros HE. pose proof (run_post fault) as HP.
+    destruct (po_run g comb fault target spies steps fuel) as [stf [out|e]]; cbn [fst snd] in *; [discriminate|].
+    destruct HP as (_ & Hl & (ft & fp & Ef & Hp & Hd & He) & Hall).
+    exists ft, fp. split; [exact Ef|].
+    destruct (le_lt_dec (length g) ft) as [Hge|Hlt].
+    - unfold get in Hd. rewrite nth_overflow in Hd by lia. discriminate.
+    - split; [exact Hlt|]. destruct (Hall ft Hlt) as (_ & _ & _ & Hpos & _). cbn zeta in Hpos. split; [lia | exact Hp].
+  Qed.
+
+  Corollary po_no_exception_without_fault :
+    snd (po_run g comb None target spies steps fuel) <> Err 1.
+  Proof. intros HE. destruct (po_exception_only_if_fault None HE) as (ft & fp & Ef & _). discriminate. Qed.
+
+  (** 4. kill_spies: when the exception arrives every saver spy has been closed - exactly once - having
+      received exactly the messages its topic produced before the failure; no topic was declared exhausted. *)
+  Theorem po_spies_closed_on_error fault :
+    let res := po_run g comb fault target spies steps fuel in
+    snd res = Err 1 ->
+    forall t, (t < length g)%nat ->
+      exhausted (get (fst res) t) = false /\
+      (nth t spies false = true ->
+         has_spy (get (fst res) t) = true /\ spy_closed (get (fst res) t) = 1%nat /\
+         spy_log (get (fst res) t) = firstn (ppos (get (fst res) t)) (whole_of g comb t)).
+  Proof.
+    cbn zeta. intros HE t Ht. pose proof (run_post fault) as HP.
+    destruct (po_run g comb fault target spies steps fuel) as [stf [out|e]]; cbn [fst snd] in *; [discriminate|].
+    destruct HP as (_ & _ & _ & Hall). destruct (Hall t Ht) as (H1 & H2 & _ & _ & H5 & H6). cbn zeta in *.
+    split; [exact H2|]. intros Hs. unfold spy0 in *. rewrite Hs in *. auto.
+  Qed.
+
+  (** 5. Which failures fire.  A position beyond the end of the faulty topic never does. *)
+  Theorem po_fault_beyond_end_never_fires ft fp :
+    (length (whole_of g comb ft) < fp)%nat ->
+    snd (po_run g comb (Some (ft, fp)) target spies steps fuel) = Ok (whole_of g comb target).
+  Proof.
+    intros Hfp. destruct (po_never_silently_truncated (Some (ft, fp))) as [HE|HO]; [|exact HO].
+    destruct (po_exception_only_if_fault _ HE) as (ft' & fp' & Ef & _ & Hle & _).
+    injection Ef as <- <-. lia.
+  Qed.
+
+  (* when the run completes, every topic that was declared exhausted got through all its positions *)
+  Lemma ok_exhausted_clean fault :
+    let res := po_run g comb fault target spies steps fuel in
+    snd res = Ok (whole_of g comb target) ->
+    exhausted (get (fst res) target) = true /\ exh_closed g (fst res) /\
+    forall t, (t < length g)%nat -> exhausted (get (fst res) t) = true ->
+      forall q, fault_in_range g comb t q -> faulty fault t q = false.
+  Proof.
+    cbn zeta. intros HO. pose proof (run_post fault) as HP.
+    destruct (po_run g comb fault target spies steps fuel) as [stf [out|e]]; cbn [fst snd] in *; [|discriminate].
+    destruct HP as (_ & [Hl HI] & Hex & _ & Hcl). split; [exact Hex|]. split; [exact Hcl|].
+    intros t Ht He q [Hq|(msgs & E & ->)].
+    - apply (ti_nofault _ _ _ _ _ _ _ (HI t Ht)). rewrite (ti_exh _ _ _ _ _ _ _ (HI t Ht) He). exact Hq.
+    - pose proof (ti_srcend _ _ _ _ _ _ _ (HI t Ht) He msgs E) as X.
+      rewrite (ti_exh _ _ _ _ _ _ _ (HI t Ht) He) in X.
+      destruct Hyp as (Hwf & _). now rewrite (W_src g comb t msgs E) in X.
+  Qed.
+
+  (* a failure injected into the target's own producer at an existing position always reaches the caller *)
+  Theorem po_fault_on_target_fires fp :
+    fault_in_range g comb target fp ->
+    snd (po_run g comb (Some (target, fp)) target spies steps fuel) = Err 1.
+  Proof.
+    intros Hr. destruct (po_never_silently_truncated (Some (target, fp))) as [HE|HO]; [exact HE|]. exfalso.
+    destruct (ok_exhausted_clean _ HO) as (Hex & _ & Hall).
+    destruct Hyp as (_ & _ & Ht & _).
+    specialize (Hall target Ht Hex fp Hr). unfold faulty in Hall. now rewrite !Nat.eqb_refl in Hall.
+  Qed.
+
+  (* in a chain (every stage has one dependency) the same holds for every topic upstream of the target *)
+  Theorem po_chain_fault_fires ft fp :
+    chain_graph g -> upstream g target ft -> fault_in_range g comb ft fp ->
+    snd (po_run g comb (Some (ft, fp)) target spies steps fuel) = Err 1.
+  Proof.
+    intros Hch Hup Hr. destruct (po_never_silently_truncated (Some (ft, fp))) as [HE|HO]; [exact HE|]. exfalso.
+    destruct (ok_exhausted_clean _ HO) as (Hex & Hcl & Hall).
+    destruct Hyp as (Hwf & _ & Ht & _).
+    set (stf := fst (po_run g comb (Some (ft, fp)) target spies steps fuel)) in *.
+    assert (Hgen : forall t u, upstream g t u -> (t < length g)%nat -> exhausted (get stf t) = true ->
+                               (u < length g)%nat /\ exhausted (get stf u) = true).
+    { intros t u Hup'. induction Hup' as [t|t deps d u E Hd Hup' IH]; [auto|]. intros Hlt Hext.
+      destruct (Hcl t deps E Hext) as (d' & Hd' & Hed').
+      destruct (Hch t deps E) as (d0 & ->). destruct Hd as [<-|[]]. destruct Hd' as [<-|[]].
+      apply IH; auto. destruct (Hwf _ _ E) as [_ F]. rewrite Forall_forall in F.
+      specialize (F d0 (or_introl eq_refl)). lia. }
+    destruct (Hgen target ft Hup Ht Hex) as [Hlt Hexft].
+    specialize (Hall ft Hlt Hexft fp Hr). unfold faulty in Hall. now rewrite !Nat.eqb_refl in Hall.
+  Qed.
+
+End Final.
+
+(* fuel > length g is the bound suggested in the design; it implies the bound used above *)
+Lemma po_hyps_big_fuel g comb target spies steps fuel :
+  wf_graph g -> nodup_deps g -> (target < length g)%nat -> length spies = length g ->
+  (length g < fuel)%nat -> (length (whole_of g comb target) < steps)%nat ->
+  po_hyps g comb target spies steps fuel.
+Proof. unfold po_hyps. intuition lia. Qed.
+
+(* ------------------------------------------------------------------------------------------ *)
+(** * The general statement that is not proved here
+
+    Exactly which failures fire in an arbitrary DAG: the failure at (ft, fp) reaches the caller iff the
+    failure-free run gets producer ft to position fp (emits message fp, or - for a source - is asked
+    for one more message at its end).  Proved above: "only if fp <= length (whole ft)"
+    ([po_exception_only_if_fault]), "if" for the target itself and for chains
+    ([po_fault_on_target_fires], [po_chain_fault_fires]); checked by computation on the examples below. *)
+
+Definition requested (g : list node) (st : state) (ft fp : nat) : Prop :=
+  (fp < ppos (get st ft))%nat \/
+  (fp = ppos (get st ft) /\ pdead (get st ft) = true /\ exists msgs, nth_error g ft = Some (Src msgs)).
+
+Definition C06_full_po_fault_fires_iff : Prop :=
+  forall g comb target spies steps fuel ft fp,
+    po_hyps g comb target spies steps fuel ->
+    (snd (po_run g comb (Some (ft, fp)) target spies steps fuel) = Err 1 <->
+     requested g (fst (po_run g comb None target spies steps fuel)) ft fp).
+
+(* ------------------------------------------------------------------------------------------ *)
+(** * Examples: the hypotheses are satisfiable, on graphs with a shared dependency *)
+
+Ltac graph_cases E :=
+  repeat match type of E with
+         | nth_error _ ?t = _ => is_var t; destruct t; cbn [nth_error] in E
+         end; try discriminate E; try (injection E as <-).
+
+(* a diamond: 1 and 2 both read 0 (so topic 0 has to save mail), 3 zips 1 and 2 *)
+Definition diamond : list node := [Src [1; 2; 3]; Stage [0%nat]; Stage [0%nat]; Stage [1%nat; 2%nat]].
+(* unequal lengths: 2 zips the long 0 with the short 1, 3 also reads 0, 4 zips 2 and 3 *)
+Definition lopsided : list node :=
+  [Src [1; 2; 3; 4]; Src [10; 20]; Stage [0%nat; 1%nat]; Stage [0%nat]; Stage [3%nat; 2%nat]].
+
+Lemma diamond_wf : wf_graph diamond /\ nodup_deps diamond.
+Proof.
+  split; intros t deps E; unfold diamond in E; graph_cases E;
+    repeat constructor; cbn [In]; try discriminate; intuition discriminate.
+Qed.
+
+Lemma lopsided_wf : wf_graph lopsided /\ nodup_deps lopsided.
+Proof.
+  split; intros t deps E; unfold lopsided in E; graph_cases E;
+    repeat constructor; cbn [In]; try discriminate; intuition discriminate.
+Qed.
+
+Example diamond_hyps : po_hyps diamond comb_std 3 [true; false; true; true] 10 5.
+Proof.
+  destruct diamond_wf as [H1 H2]. apply po_hyps_big_fuel; auto; vm_compute; repeat constructor.
+Qed.
+
+Example lopsided_hyps : po_hyps lopsided comb_std 4 [true; true; true; false; true] 10 6.
+Proof.
+  destruct lopsided_wf as [H1 H2]. apply po_hyps_big_fuel; auto; vm_compute; repeat constructor.
+Qed.
+
+(* the failure-free diamond: three messages arrive; every spy saw its whole topic and was closed once *)
+Example diamond_run :
+  snd (po_run diamond comb_std None 3 [true; false; true; true] 10 5)
+  = Ok [comb_std 3 [comb_std 1 [1]; comb_std 2 [1]]; comb_std 3 [comb_std 1 [2]; comb_std 2 [2]];
+        comb_std 3 [comb_std 1 [3]; comb_std 2 [3]]] /\
+  map (fun ts => (spy_log ts, spy_closed ts, saved ts)) (fst (po_run diamond comb_std None 3 [true; false; true; true] 10 5))
+  = [([1; 2; 3], 1%nat, []); ([], 0%nat, []);
+     ([comb_std 2 [1]; comb_std 2 [2]; comb_std 2 [3]], 0%nat, []);
+     (whole_of diamond comb_std 3, 1%nat, [])].
+Proof. vm_compute. split; reflexivity. Qed.
+
+(* the theorem instantiated (non-vacuity of po_no_fault_complete) *)
+Example diamond_complete :
+  snd (po_run diamond comb_std None 3 [true; false; true; true] 10 5) = Ok (whole_of diamond comb_std 3).
+Proof. exact (proj1 (po_no_fault_complete _ _ _ _ _ _ diamond_hyps)). Qed.
+
+(* a faulty run: stage 2 fails when it is about to emit its second message *)
+Example diamond_faulty_run :
+  snd (po_run diamond comb_std (Some (2%nat, 1%nat)) 3 [true; false; true; true] 10 5) = Err 1 /\
+  map (fun ts => (spy_log ts, spy_closed ts, exhausted ts)) (fst (po_run diamond comb_std (Some (2%nat, 1%nat)) 3 [true; false; true; true] 10 5))
+  = [([1; 2], 1%nat, false); ([], 0%nat, false); ([comb_std 2 [1]], 1%nat, false);
+     ([comb_std 3 [comb_std 1 [1]; comb_std 2 [1]]], 1%nat, false)].
+Proof. vm_compute. split; reflexivity. Qed.
+
+Example diamond_fired :
+  fired (Some (2%nat, 1%nat)) (fst (po_run diamond comb_std (Some (2%nat, 1%nat)) 3 [true; false; true; true] 10 5)).
+Proof. apply (po_exception_iff_fired _ _ _ _ _ _ diamond_hyps). vm_compute. reflexivity. Qed.
+
+(* the source failing "at its end" is a failure too; a position that is never reached is not *)
+Example diamond_fault_at_source_end :
+  snd (po_run diamond comb_std (Some (0%nat, 3%nat)) 3 [true; false; true; true] 10 5) = Err 1.
+Proof. vm_compute. reflexivity. Qed.
+
+Example diamond_fault_never_reached :
+  snd (po_run diamond comb_std (Some (1%nat, 5%nat)) 3 [true; false; true; true] 10 5)
+  = Ok (whole_of diamond comb_std 3).
+Proof. apply (po_fault_beyond_end_never_fires _ _ _ _ _ _ diamond_hyps). vm_compute. repeat constructor. Qed.
+
+(* lopsided: topic 0 has four messages but only two are ever needed; a failure at its position 3 is
+   never reached, one at position 2 is (stage 3 asks for it before stage 2 hits the end of topic 1) *)
+Example lopsided_runs :
+  snd (po_run lopsided comb_std None 4 [true; true; true; false; true] 10 6) = Ok (whole_of lopsided comb_std 4) /\
+  length (whole_of lopsided comb_std 4) = 2%nat /\
+  snd (po_run lopsided comb_std (Some (0%nat, 3%nat)) 4 [true; true; true; false; true] 10 6) = Ok (whole_of lopsided comb_std 4) /\
+  snd (po_run lopsided comb_std (Some (0%nat, 2%nat)) 4 [true; true; true; false; true] 10 6) = Err 1.
+Proof. vm_compute. repeat split; reflexivity. Qed.
+
+(* the unproved general characterisation, decided by computation for every failure position of the
+   two example graphs *)
+Definition requestedb (g : list node) (st : state) (ft fp : nat) : bool :=
+  Nat.ltb fp (ppos (get st ft)) ||
+  (Nat.eqb fp (ppos (get st ft)) && pdead (get st ft) && match nth_error g ft with Some (Src _) => true | _ => false end).
+
+Definition fires_iff_check (g : list node) (target : nat) (spies : list bool) (steps fuel : nat) : bool :=
+  forallb (fun ft => forallb (fun fp =>
+      Bool.eqb (match snd (po_run g comb_std (Some (ft, fp)) target spies steps fuel) with Err 1 => true | _ => false end)
+               (requestedb g (fst (po_run g comb_std None target spies steps fuel)) ft fp))
+    (seq 0 7)) (seq 0 (S (length g))).
+
+Example fires_iff_on_examples :
+  fires_iff_check diamond 3 [true; false; true; true] 10 5 = true /\
+  fires_iff_check lopsided 4 [true; true; true; false; true] 10 6 = true /\
+  fires_iff_check lopsided 2 [true; true; true; false; true] 10 6 = true.
+Proof. vm_compute. repeat split; reflexivity. Qed.
+(*__END__*)
